@@ -114,11 +114,13 @@ def SUBSTITUTE(text, old_text, new_text, instance_num=DEFAULT):
     else:
         len_old = len(old_text)
         ocurrences = 0
+        next_start = 0  # occurrences do not overlap, as in the replace-all form
         for i in range(len(text) - len_old + 1):
-            if text[i:i + len_old] == old_text:
+            if i >= next_start and text[i:i + len_old] == old_text:
                 ocurrences += 1
                 if ocurrences == instance_num:
                     return text[0:i] + new_text + text[i + len_old:]
+                next_start = i + len_old
         return text
 
 
